@@ -165,12 +165,17 @@ func verifC14StartReading() {
 		stream = append(stream, p...)
 	}
 	// optional truncated tail: a header announcing more than what follows
-	tail := verifChoice(3)
+	tail := verifChoice(4)
 	switch tail {
 	case 1:
 		stream = append(stream, 0)
 	case 2:
 		stream = append(stream, 0, 2, verifU8())
+	case 3:
+		// a frame larger than the receive buffer (8193 > 8192): a framing error;
+		// what follows must never be parsed as further frames
+		stream = append(stream, 0x20, 0x01, 0, 1, verifU8(), 0, 1, verifU8())
+		verifReach("oversized-frame")
 	}
 	conn := &verifStreamConn{data: stream, failAt: -1, remote: verifAddr{"10.0.0.2:7"}, partial: -1}
 	t := newTCPPacketConn(tcpPacketParams{ReadBuffer: 8, Logger: verifNopLogger{}, LocalAddr: verifAddr{"10.0.0.1:1"}})
